@@ -251,7 +251,8 @@ func jsonSwap(rt *rapid.T, b []byte, l string) []byte {
 func drawRogue(rt *rapid.T, resp proto.Message, l string) *RogueResp {
 	r := &RogueResp{}
 	r.Status = rapid.SampledFrom([]int{200, 200, 201, 204, 301, 302, 304, 400, 400, 401, 404, 418, 429, 500, 502, 503, 599}).Draw(rt, l+".status")
-	ct := rapid.SampledFrom([]string{"application/json", "application/x-protobuf", "text/html", "", "application/json; charset=utf-8", "text/plain"}).Draw(rt, l+".ct")
+	ct := rapid.SampledFrom([]string{"application/json", "application/x-protobuf", "text/html", "", "application/json; charset=utf-8", "text/plain",
+		"json", "*", ";charset=utf-8", "proto; v=1", "application/", "/", "a/b/c"}).Draw(rt, l+".ct")
 	if ct != "" {
 		r.Headers = append(r.Headers, [2]string{"Content-Type", ct})
 	}
